@@ -274,6 +274,7 @@ func (fr *Frame) run() {
 			if v == nil {
 				panic(unsupported("phi without entry edges"))
 			}
+			v = fr.nameITE(v, "phi."+phi.Name())
 			phiEntry[phi] = v
 			fr.vals[phi] = v
 		}
@@ -295,6 +296,33 @@ func (fr *Frame) run() {
 		}
 		x.curLoops = saveLoops
 	}
+}
+
+// nameITE gives the if-then-else leaves of a merged value a name, so that every later mention
+// of the value is the same small term (E-matching does not look through nested ite terms).
+func (fr *Frame) nameITE(v *SVal, base string) *SVal {
+	if v == nil {
+		return v
+	}
+	if v.F != nil {
+		n := *v
+		n.F = make([]*SVal, len(v.F))
+		for i, f := range v.F {
+			n.F[i] = fr.nameITE(f, base)
+		}
+		return &n
+	}
+	if !strings.HasPrefix(v.Term, "(ite ") || v.T == nil {
+		return v
+	}
+	srt := "Int"
+	func() {
+		defer func() { recover() }()
+		srt = sortOf(v.T)
+	}()
+	n := *v
+	n.Term = fr.x.em.Def(base, srt, v.Term)
+	return &n
 }
 
 func (fr *Frame) edgeVal(v ssa.Value, from *ssa.BasicBlock) *SVal {
